@@ -5,7 +5,13 @@ Props/C05Pollard.lean — C05, the Pollard p-1 clause for the product the constr
 `Props/C05.lean pollard_flag` is stated for an arbitrary `m` with `g ∣ m`. Here `m` is the
 constructor's product (Model/RsaChecks.lean `pollardProduct`) with the documented exponents
 (`pollardExpsDocumented`; the float expression `int(math.log(bound, p))` is an oracle that the
-harness compares with these exact values on every run, ops `chk.pm1_product` / `chk.pm1_exps`):
+harness compares with these exact values on every run, ops `chk.pm1_product` / `chk.pm1_exps`).
+For the DEFAULT product the float values are the documented ones (gated on every run), so the
+`default…` theorems are about the product the real default check uses. For USER bounds they are NOT
+always: `int(math.log(243, 3)) = 4` (also 4913, 29791, 59049, 68921, 571787 below 2^20), there
+`userM_dvd_iff` / `pollard_user_flag` describe the documented product, not the one the code builds;
+the statements that are true of the code for every float answer are
+`C05PollardExps.product_dvd_iff` / `pollard_flag_exps` (second review, M4):
 
  * `defaultM_dvd_iff`     g ∣ defaultM ↔ every prime power r^k ∣ g has k ≤ e_r, where
                           e_r = ⌊log_r 2^64⌋ for r ≤ 863 (the first 150 primes), 1 for 863 < r < 2^20,
@@ -64,8 +70,12 @@ theorem defaultM_def :
     defaultM = pollardProduct (some 0) (pollardExpsDocumented (some 0)) ∧
     0 < defaultM := ⟨rfl, rfl, defaultM_pos⟩
 
-/-- **Exact criterion for a user bound `b ≥ 1`**: `g ∣ m` iff `g` is `b`-powersmooth with prime
-factors below `b`. -/
+/-- **Exact criterion for a user bound `b ≥ 1`, DOCUMENTED exponents**: `g ∣ m` iff `g` is
+`b`-powersmooth with prime factors below `b`. This is the product `CheckPollardpm1(b)` really builds
+iff the float expression returned `⌊log_r b⌋` for every prime — true for every `b ≤ 2^20` except the
+prime powers 243, 4913, 29791, 59049, 68921, 571787 (measured; there the real product lacks one factor
+`r`: `C05PollardExps.bound243_real_lacks_3pow5`). The criterion for the exponents actually used is
+`C05PollardExps.product_dvd_iff`. -/
 theorem userM_dvd_iff (b : Nat) (hb : b ≠ 0) (g : Nat) (hg : g ≠ 0) :
     g ∣ pollardProduct (some b) (pollardExpsDocumented (some b)) ↔
       ∀ r k, r.Prime → r ^ k ∣ g → k = 0 ∨ (r < b ∧ r ^ k ≤ b) := by
@@ -131,7 +141,12 @@ theorem pollard_default_both_smooth {p q : Nat} (hp : p.Prime) (hq : q.Prime) (h
   rw [pollard_default_flag hp hq hpq hpo hqo g hgp hgq hg hsm hp1,
     if_pos (two_pow_mod_prime hq hqo hq1)]
 
-/-- the user-bound version: `CheckPollardpm1(b)`, `b ≥ 1`, shared factor `b`-powersmooth. -/
+/-- the user-bound version for the DOCUMENTED product of `CheckPollardpm1(b)`, `b ≥ 1`, shared factor
+`b`-powersmooth. It is a statement about the real check only when the float exponents are the
+documented ones (`C05PollardExps.pollard_user_flag_of_documented` makes that hypothesis explicit); for
+`b = 243` it is NOT: `C05PollardExps.bound243_documented_vs_real` is a key that satisfies every
+hypothesis here (also the non-vacuity example of this theorem) and that the real `CheckPollardpm1(243)`
+does not flag. True of the code for every float answer: `C05PollardExps.pollard_flag_exps`. -/
 theorem pollard_user_flag {p q : Nat} (hp : p.Prime) (hq : q.Prime) (hpq : p ≠ q)
     (hpo : p % 2 = 1) (hqo : q % 2 = 1) (b : Nat) (hb : b ≠ 0) (g gb : Nat)
     (hgp : g ∣ p - 1) (hgq : g ∣ q - 1) (hg : gb ≤ g) (hg0 : g ≠ 0)
